@@ -268,6 +268,73 @@ theorem drain_drop (pdrs : List Nat) (s : Sess) (h : pdrs.Nodup) : (drain s none
   apply List.flatMap_eq_nil_iff.mpr
   intro p _; rfl
 
+/-! ### several buffering periods on one queue -/
+
+/-- what happens to one PDR's queue over time: a packet is handed up, or the queue is released (towards the tunnel
+    `some teid`, or dropped `none`) -/
+inductive QOp
+  | push (pkt : Bytes)
+  | release (emit : Option Nat)
+
+/-- the model run on one PDR: the session after the operations and, per release, what left the queue (as datagrams) -/
+def runQ (pdr : Nat) : Sess → List QOp → Sess × List (List Bytes)
+  | s, [] => (s, [])
+  | s, .push pkt :: ops => runQ pdr (push s pdr pkt) ops
+  | s, .release emit :: ops =>
+    ((runQ pdr (drain s emit [pdr]).1 ops).1, (drain s emit [pdr]).2 :: (runQ pdr (drain s emit [pdr]).1 ops).2)
+
+/-- the specification, with a counter only: a packet is accepted iff fewer than `cap` packets are waiting since the last
+    release; a release lets go of exactly the packets accepted since the previous one, in arrival order -/
+def specQ : List Bytes → List QOp → List Bytes × List (Option Nat × List Bytes)
+  | waiting, [] => (waiting, [])
+  | waiting, .push pkt :: ops => specQ (if waiting.length < cap then waiting ++ [pkt] else waiting) ops
+  | waiting, .release emit :: ops => ((specQ [] ops).1, (emit, waiting) :: (specQ [] ops).2)
+
+/-- **every history of pushes and releases on a queue** (any number of buffering periods, of any lengths, overflowing or
+    not): each release emits exactly the packets accepted since the previous release, once each, in arrival order, as
+    G-PDUs with the release's TEID and the PDR's QFI (nothing for a drop), and what is still waiting at the end is what
+    the specification says — nothing of an earlier period survives into a later one -/
+theorem periods_exact (pdr : Nat) (ops : List QOp) : ∀ (s : Sess),
+    (runQ pdr s ops).2 = (specQ (queue s pdr) ops).2.map (fun (r : Option Nat × List Bytes) =>
+        match r.1 with
+        | some teid => r.2.map (gtpu teid (qfiOf s pdr))
+        | none => []) ∧
+    queue (runQ pdr s ops).1 pdr = (specQ (queue s pdr) ops).1 := by
+  induction ops with
+  | nil => intro s; simp [runQ, specQ]
+  | cons op ops ih =>
+    intro s
+    cases op with
+    | push pkt =>
+      simp only [runQ, specQ]
+      have := ih (push s pdr pkt)
+      rw [push_queue_same] at this
+      have hq : qfiOf (push s pdr pkt) pdr = qfiOf s pdr := rfl
+      rw [hq] at this
+      exact this
+    | release emit =>
+      simp only [runQ, specQ]
+      obtain ⟨d1, d2, _, d4⟩ := drain_exact emit [pdr] s (by simp)
+      have := ih (drain s emit [pdr]).1
+      rw [d2 pdr (by simp), d4 pdr] at this
+      refine ⟨?_, this.2⟩
+      rw [this.1, d1]
+      simp only [List.flatMap_cons, List.flatMap_nil, List.append_nil, List.map_cons]
+      cases emit <;> rfl
+
+/-- non-vacuity: two packets, a release to TEID 7, three packets, a drop, one packet: each release lets go of its own
+    period's packets only -/
+example :
+    (specQ [] [.push [1#8], .push [2#8], .release (some 7), .push [9#8], .push [9#8], .push [9#8], .release none, .push [3#8]]).1 = [[3#8]] ∧
+    ((specQ [] [.push [1#8], .push [2#8], .release (some 7), .push [9#8], .push [9#8], .push [9#8], .release none, .push [3#8]]).2.map
+      fun r => (r.1, r.2.length)) = [(some 7, 2), (none, 3)] := by
+  simp [specQ, cap, pfcp.BUFFQ_LEN]
+
+/-- …and a full queue refuses the newcomer: with `cap` packets waiting a further push changes nothing -/
+theorem specQ_full (waiting : List Bytes) (pkt : Bytes) (ops : List QOp) (h : waiting.length = cap) :
+    specQ waiting (.push pkt :: ops) = specQ waiting ops := by
+  simp [specQ, h]
+
 /-- every re-injected packet is a well-formed G-PDU carrying exactly (TEID, QFI, payload) — for the independent decoder -/
 theorem datagram_wellformed (teid : Nat) (qfi : Nat) (pkt : Bytes) (ht : teid < 2 ^ 32) (hq : qfi < 64)
     (hl : pkt.length + 8 ≤ 65535) :
